@@ -39,4 +39,5 @@ Record checker_cfg := {
   ty_index : nat;                               (* _instancecheck_type: type_[ty_index] *)
   str_walks_mro : bool;                         (* string annotations: any(c.__name__ == type_ for c in type(value).__mro__) *)
   none_by_eq : bool;                            (* `if type_ is None: return value is None` (the annotation None accepts exactly None) *)
+  plain_class_complete : bool;                  (* _has_required_type_arguments answers True for a plain class BEFORE it looks its __name__ up in the arity tables *)
 }.
